@@ -62,8 +62,16 @@ fn a_value(rng: &mut Rng) -> f64 {
     match rng.below(12) {
         0 => 0.05,
         1 => 100.0,
-        2 => 1.0 + rng.range(-2.5e-8, 2.5e-8),
-        3 => [1.0 - 1e-8, 1.0 + 1e-8, 1.0 - 2e-8, 1.0 + 2e-8, 1.0][rng.below(5)],
+        2 => {
+            // all scales of |a-1| from 1e-9 to 1e-4, on both sides (the a~1 special case and its rim)
+            let d = 10f64.powf(-rng.range(4.0, 9.0));
+            if rng.chance(0.5) {
+                1.0 + d
+            } else {
+                1.0 - d
+            }
+        }
+        3 => [1.0 - 1e-8, 1.0 + 1e-8, 1.0 - 2e-8, 1.0 + 2e-8, 1.0, 1.0 + 2.5e-8 * (rng.f() - 0.5)][rng.below(6)],
         4 => 0.3 + rng.range(-1e-6, 1e-6),
         5 => rng.int(1, 100) as f64,
         6 => rng.int(1, 199) as f64 / 2.0,
@@ -274,7 +282,7 @@ pub fn run(ctx: &Ctx) -> i32 {
     let (st_err, st_n) = crate::special::self_test();
     if !(st_err < 1e-11) {
         out(&format!("INCONCLUSIVE property=C12 oracle self-test failed: max error {:e} over {} identities", st_err, st_n));
-        return 3;
+        return inconclusive_exit();
     }
     let n_items = ctx.n(600, 60_000);
     let acc = par_items(ctx, "C12", n_items, |item, rng, acc| match item % 6 {
